@@ -83,7 +83,10 @@ def case_term(c):
     if k == "string":
         m = SMODE[mode] if mode != -1 else "SRaw"
         ss = "[" + ";".join(bl(s) for s in c.get("strs", [])) + "]"
-        return "(check_string %s %s %s %s %s)" % (d, cc, m, ss, real)
+        t = "(check_string %s %s %s %s %s)" % (d, cc, m, ss, real)
+        if c.get("v1"):
+            t = "(%s + 16 * check_string_v1 %s %s)" % (t, ss, bl(c["v1"]))
+        return t
     if k == "file":
         if not c.get("hex"):
             return None
